@@ -225,154 +225,102 @@ example :
       resolveAt inflate 1 (fun _ => .error .key) (writePack deflate H recs).1 3 29 = .ok (3, [7, 2, 3, 4, 9]) := by
   refine ⟨by decide, by decide +kernel, by decide +kernel, by decide +kernel⟩
 
-/-! ## 5. index v2: write → load → lookup, sound and complete *except* for the phantom name -/
+/-! ## 5. pack index: write → load → lookup is sound and complete (versions 2, 3 and 1) -/
 
-/-- The full statement one would like: looking a name up in the written index finds exactly the
-entries that were written.  **False for the code as it is** (`index_phantom_counterexample`). -/
-def IndexLookupStatement : Prop :=
-  ∀ (H : Bytes → Bytes) (es : List IdxEntry) (cs sha : Bytes) (hs : Nat),
-    (hs = 20 ∨ hs = 32) → cs.length = hs → (∀ e ∈ es, e.name.length = hs) → sha.length = hs →
-    Sorted es → es.length < 2 ^ 31 → (∀ e ∈ es, e.crc < 2 ^ 32 ∧ e.offset < 2 ^ 64) →
-    ∃ file x, writeIndexV2 H es cs = .ok file ∧ loadIndex hs file = .ok x ∧
-      x.lookup sha = match es.find? (fun e => decide (e.name = sha)) with
-                     | some e => .ok e.offset
-                     | none => .error .key
-
-/-- **Index v2 round trip, as coded.**  For every strictly sorted (hence duplicate-free) entry list with
-names of the hash length, 32-bit CRCs and offsets below 2^64 (so also the ones ≥ 2^31 that go through the
-64-bit table), the file `write_pack_index_v2` writes loads as a v2 index with `len = #entries` and the
-fan-out law, and `_object_offset(sha)` returns the offset of the entry named `sha`, or `KeyError` when
-there is none — **provided** `sha` is not the byte string that follows the name table
-(`x.nameAt es.length`, see `index_phantom_is_after_names`).  The proof needs that hypothesis because the
-bisection is handed `fan_out[b]`, one past the group, as an *inclusive* bound. -/
-theorem index_v2_lookup_partial (H : Bytes → Bytes) (es : List IdxEntry) (cs sha : Bytes) (hs : Nat)
+/-- **Index v2 round trip.**  For every strictly sorted (hence duplicate-free) entry list with names of the
+hash length (20 or 32), 32-bit CRCs and offsets below 2^64 (so also the ones ≥ 2^31 that go through the
+64-bit table), the file `write_pack_index_v2` writes loads as a v2 index with `len = #entries` and
+`fan_out[b] = #{names with first byte ≤ b}`, and `_object_offset(sha)` returns the offset of the entry named
+`sha`, or `KeyError` when there is none — for **every** probe `sha` of the hash length.  (Up to the F3
+repair this needed the hypothesis that `sha` is not the byte string after the name table; see
+`index_old_bound_phantom_counterexample`.) -/
+theorem index_v2_lookup (H : Bytes → Bytes) (es : List IdxEntry) (cs sha : Bytes) (hs : Nat)
     (hhs : hs = 20 ∨ hs = 32) (hcs : cs.length = hs) (hnames : ∀ e ∈ es, e.name.length = hs)
     (hsha : sha.length = hs) (hsorted : Sorted es) (hn : es.length < 2 ^ 31)
     (hfield : ∀ e ∈ es, e.crc < 2 ^ 32 ∧ e.offset < 2 ^ 64) :
     ∃ file x, writeIndexV2 H es cs = .ok file ∧ loadIndex hs file = .ok x ∧ x.n = es.length ∧
       (∀ b, b < 256 → x.fan[b]? = some (countLe es b)) ∧
-      (x.nameAt es.length ≠ sha →
-        x.lookup sha = match es.find? (fun e => decide (e.name = sha)) with
-                       | some e => .ok e.offset
-                       | none => .error .key) := by
-  refine ⟨v2File H es cs, v2Idx H es cs hs, ?_, load_v2 H es cs hs hn, rfl, ?_, ?_⟩
-  · exact write_v2_ok H es cs hs hhs hcs hnames hfield
+      x.lookup sha = match es.find? (fun e => decide (e.name = sha)) with
+                     | some e => .ok e.offset
+                     | none => .error .key := by
+  refine ⟨v2File H es cs, v2Idx H es cs hs, write_v2_ok H es cs hs hhs hcs hnames hfield,
+    load_v2 H es cs hs hn, rfl, ?_, ?_⟩
   · intro b hb
     show ((List.range' 0 256).map (cumul es))[b]? = some (countLe es b)
     rw [fan_get es b hb, cumul_eq_countLe]
-  · intro hph
-    have hfb := firstByte_lt sha
-    have hmono := hsorted.firstBytes
-    -- start and end of the group
-    have hstart : (if firstByte sha = 0 then some 0 else ((List.range' 0 256).map (cumul es))[firstByte sha - 1]?)
-        = some (countLt es (firstByte sha)) := by
-      by_cases h0 : firstByte sha = 0
-      · rw [if_pos h0, h0, countLt_zero]
-      · rw [if_neg h0, fan_get es _ (by omega), cumul_eq_countLe, countLe_eq_countLt]
-        congr 2; omega
-    have hend : ((List.range' 0 256).map (cumul es))[firstByte sha]? = some (countLe es (firstByte sha)) := by
-      rw [fan_get es _ hfb, cumul_eq_countLe]
-    have hle : countLt es (firstByte sha) ≤ countLe es (firstByte sha) := countLt_le_countLe es _
-    have hen : countLe es (firstByte sha) ≤ es.length := countLe_le es _
-    -- what the bisection does
-    have hbis := bisect_spec (v2Idx H es cs hs).nameAt sha (countLt es (firstByte sha)) (countLe es (firstByte sha))
-      (by
-        intro i j hi hij hj
-        rw [nameAt_v2 H es cs hs hnames i (by omega), nameAt_v2 H es cs hs hnames j (by omega)]
-        exact (List.pairwise_iff_getElem.mp hsorted) i j (by omega) (by omega) hij)
-      (by
-        by_cases hlast : countLe es (firstByte sha) = es.length
-        · rw [hlast]; exact hph
-        · have hlt : countLe es (firstByte sha) < es.length := by omega
-          rw [nameAt_v2 H es cs hs hnames _ hlt]
-          intro heq
-          have h1 := (countLt_iff es (firstByte sha + 1) _ hlt hmono).not.mp
-            (by rw [← countLe_eq_countLt]; omega)
-          rw [heq] at h1
-          omega)
-      (countLe es (firstByte sha) + 1 - countLt es (firstByte sha)) (countLt es (firstByte sha))
-      (countLe es (firstByte sha) + 1) (Nat.le_refl _) (Nat.le_refl _) (Nat.le_refl _)
-      (by intro k h1 h2; omega) (by intro k h1 h2; omega)
-    -- unfold the lookup
-    unfold Idx.lookup
-    have hx1 : (v2Idx H es cs hs).hs = hs := rfl
-    have hx2 : (v2Idx H es cs hs).fan = (List.range' 0 256).map (cumul es) := rfl
-    rw [hx1, hx2]
-    simp only [hsha, ne_eq, not_true_eq_false, if_false, hstart, hend, Gen.Pack.bisectInclusive,
-      Gen.Pack.lookupEndSlack, Nat.sub_zero]
-    rw [if_neg (by omega)]
-    generalize hr : bisect (v2Idx H es cs hs).nameAt sha
-      (countLe es (firstByte sha) + 1 - countLt es (firstByte sha)) (countLt es (firstByte sha))
-      (countLe es (firstByte sha) + 1) = r at hbis
-    cases r with
-    | some i =>
-      obtain ⟨hi1, hi2, hi3⟩ := hbis.1 i rfl
-      have hin : i < es.length := by omega
-      rw [nameAt_v2 H es cs hs hnames i hin] at hi3
-      simp only
-      rw [offsetAt_v2 _ H es cs hs (v2Idx_isV2 H es cs hs) hnames hn (fun e he => (hfield e he).2) i hin]
-      rw [← hi3, find_sorted es i hin hsorted]
-    | none =>
-      have hnone := hbis.2 rfl
-      have hfind : es.find? (fun e => decide (e.name = sha)) = none := by
-        rw [List.find?_eq_none]
-        intro e he
-        obtain ⟨j, hj, rfl⟩ := List.getElem_of_mem he
-        simp only [decide_eq_true_eq]
-        intro heq
-        have hfj : firstByte es[j].name = firstByte sha := by rw [heq]
-        have h1 := (countLt_iff es (firstByte sha) j hj hmono).not.mpr (by omega)
-        have h2 := (countLt_iff es (firstByte sha + 1) j hj hmono).mpr (by omega)
-        rw [← countLe_eq_countLt] at h2
-        have := hnone j (by omega) h2
-        rw [nameAt_v2 H es cs hs hnames j hj] at this
-        exact this heq
-      simp only [hfind]
+  · show (v2Idx H es cs hs).lookupWith 1 1 sha = _
+    exact lookup_correct _ es hs sha
+      (facts_of_tabled _ es hs _ _ (v2Idx_tabled H es cs hs) hnames hn (fun e he => (hfield e he).2)) hsha hsorted
 
-/-- What the excluded probe is: the `hs` bytes that follow the name table — the beginning of the CRC
+/-- **Index v3 round trip** (SHA-1: `write_pack_index_v3` implements `hash_format = 1` only). -/
+theorem index_v3_lookup (H : Bytes → Bytes) (es : List IdxEntry) (cs sha : Bytes)
+    (hcs : cs.length = 20) (hnames : ∀ e ∈ es, e.name.length = 20)
+    (hsha : sha.length = 20) (hsorted : Sorted es) (hn : es.length < 2 ^ 31)
+    (hfield : ∀ e ∈ es, e.crc < 2 ^ 32 ∧ e.offset < 2 ^ 64) :
+    ∃ file x, writeIndexV3 H es cs 1 = .ok file ∧ loadIndex 20 file = .ok x ∧ x.version = 3 ∧ x.n = es.length ∧
+      (∀ b, b < 256 → x.fan[b]? = some (countLe es b)) ∧
+      x.lookup sha = match es.find? (fun e => decide (e.name = sha)) with
+                     | some e => .ok e.offset
+                     | none => .error .key := by
+  refine ⟨v3File H es cs, v3Idx H es cs, write_v3_ok H es cs hcs hnames hfield, load_v3 H es cs hn, rfl, rfl, ?_, ?_⟩
+  · intro b hb
+    show ((List.range' 0 256).map (cumul es))[b]? = some (countLe es b)
+    rw [fan_get es b hb, cumul_eq_countLe]
+  · show (v3Idx H es cs).lookupWith 1 1 sha = _
+    exact lookup_correct _ es 20 sha
+      (facts_of_tabled _ es 20 _ _ (v3Idx_tabled H es cs) hnames hn (fun e he => (hfield e he).2)) hsha hsorted
+
+/-- **Index v1 round trip**: 20-byte names, offsets below 2^32 (the writer refuses larger ones), no CRCs. -/
+theorem index_v1_lookup (H : Bytes → Bytes) (es : List IdxEntry) (cs sha : Bytes)
+    (hcs : cs.length = 20) (hnames : ∀ e ∈ es, e.name.length = 20)
+    (hsha : sha.length = 20) (hsorted : Sorted es) (hn : es.length < 2 ^ 31)
+    (hoff : ∀ e ∈ es, e.offset < 2 ^ 32) :
+    ∃ file x, writeIndexV1 H es cs = .ok file ∧ loadIndex 20 file = .ok x ∧ x.version = 1 ∧ x.n = es.length ∧
+      (∀ b, b < 256 → x.fan[b]? = some (countLe es b)) ∧
+      x.lookup sha = match es.find? (fun e => decide (e.name = sha)) with
+                     | some e => .ok e.offset
+                     | none => .error .key := by
+  refine ⟨v1File H es cs, v1Idx H es cs, write_v1_ok H es cs hcs hnames hoff, load_v1 H es cs hn, rfl, rfl, ?_, ?_⟩
+  · intro b hb
+    show ((List.range' 0 256).map (cumul es))[b]? = some (countLe es b)
+    rw [fan_get es b hb, cumul_eq_countLe]
+  · show (v1Idx H es cs).lookupWith 1 1 sha = _
+    exact lookup_correct _ es 20 sha (v1_facts H es cs hnames hoff) hsha hsorted
+
+/-- Non-vacuity: two entries, one with an offset ≥ 2^32 (64-bit table); present and absent probes, in every
+version that can hold them. -/
+example :
+    let es : List IdxEntry := [⟨List.replicate 20 1, 12, 7⟩, ⟨List.replicate 20 2, 2 ^ 32 + 5, 9⟩]
+    let es1 : List IdxEntry := [⟨List.replicate 20 1, 12, 7⟩, ⟨List.replicate 20 2, 2 ^ 32 - 1, 9⟩]
+    let cs : Bytes := List.replicate 20 0xab
+    let H : Bytes → Bytes := fun _ => List.replicate 20 0
+    Sorted es ∧
+      (v2Idx H es cs 20).lookup (List.replicate 20 2) = .ok (2 ^ 32 + 5) ∧
+      (v3Idx H es cs).lookup (List.replicate 20 2) = .ok (2 ^ 32 + 5) ∧
+      (v1Idx H es1 cs).lookup (List.replicate 20 2) = .ok (2 ^ 32 - 1) ∧
+      (v2Idx H es cs 20).lookup (List.replicate 20 3) = .error .key := by
+  refine ⟨by decide, by decide +kernel, by decide +kernel, by decide +kernel, by decide +kernel⟩
+
+/-- What index `len(index)` of the name table holds: the `hs` bytes that follow it — the beginning of the CRC
 table, or for an empty index the pack checksum itself. -/
 theorem index_phantom_is_after_names (H : Bytes → Bytes) (es : List IdxEntry) (cs : Bytes) (hs : Nat)
     (hnames : ∀ e ∈ es, e.name.length = hs) :
     (v2Idx H es cs hs).nameAt es.length
       = (crcTable es ++ (ofsWords 0 es ++ (largeWords es ++ (cs ++ H (v2Body es cs))))).take hs :=
-  nameAt_v2_phantom H es cs hs hnames
+  nameAt_tabled_phantom _ es hs _ _ (v2Idx_tabled H es cs hs) hnames
 
-/-- Non-vacuity of `index_v2_lookup_partial`: two entries, one with an offset ≥ 2^32 (64-bit table), probe
-present; all hypotheses hold, including phantom-freeness. -/
-example :
-    let es : List IdxEntry := [⟨List.replicate 20 1, 12, 7⟩, ⟨List.replicate 20 2, 2 ^ 32 + 5, 9⟩]
-    let cs : Bytes := List.replicate 20 0xab
-    let H : Bytes → Bytes := fun _ => List.replicate 20 0
-    Sorted es ∧ (v2Idx H es cs 20).nameAt es.length ≠ List.replicate 20 2 ∧
-      (v2Idx H es cs 20).lookup (List.replicate 20 2) = .ok (2 ^ 32 + 5) := by
-  refine ⟨by decide, by decide +kernel, by decide +kernel⟩
-
-/-- **Negation witness (DESIGN §7-F3, confirmed on the real code).**  The index of the *empty* pack
-(pack checksum `029d0882…`): the 20 bytes after the empty name table are the pack checksum, the
-inclusive bisection over `[0, 0]` probes them, and looking the checksum up *as an object name* succeeds
-with offset `0x029d0882` although the index has no entries. -/
-theorem index_phantom_counterexample :
+/-- **Regression witness for DESIGN §7-F3** (confirmed on the code before the repair).  With the *old* call
+site — `bisect_find_sha(start, end, …)`, i.e. `lookupWith 0 0` — the index of the empty pack (pack checksum
+`029d0882…`) finds the pack checksum *as an object name*, at offset `0x029d0882`, although it has no
+entries: the inclusive bisection over `[0, 0]` probes the 20 bytes after the empty name table.  The call
+site of the working tree (`lookup`) answers `KeyError`. -/
+theorem index_old_bound_phantom_counterexample :
     let cs : Bytes := [0x02, 0x9d, 0x08, 0x82, 0x3b, 0xd8, 0xa8, 0xea, 0xb5, 0x10, 0xad, 0x6a, 0xc7, 0x5c, 0x82,
       0x3c, 0xfd, 0x3e, 0xd3, 0x1e]
     let H : Bytes → Bytes := fun _ => List.replicate 20 0
-    (v2Idx H [] cs 20).lookup cs = .ok 0x029d0882 ∧
-      ([] : List IdxEntry).find? (fun e => decide (e.name = cs)) = none := by
-  refine ⟨by decide +kernel, rfl⟩
-
-/-- Hence the full statement is false for the code as it is. -/
-theorem index_lookup_statement_false : ¬ IndexLookupStatement := by
-  intro h
-  obtain ⟨file, x, hw, hl, hlook⟩ := h (fun _ => List.replicate 20 0) []
-    [0x02, 0x9d, 0x08, 0x82, 0x3b, 0xd8, 0xa8, 0xea, 0xb5, 0x10, 0xad, 0x6a, 0xc7, 0x5c, 0x82, 0x3c, 0xfd, 0x3e, 0xd3, 0x1e]
-    [0x02, 0x9d, 0x08, 0x82, 0x3b, 0xd8, 0xa8, 0xea, 0xb5, 0x10, 0xad, 0x6a, 0xc7, 0x5c, 0x82, 0x3c, 0xfd, 0x3e, 0xd3, 0x1e]
-    20 (Or.inl rfl) rfl (by simp) rfl (by simp [Sorted]) (by simp) (by simp)
-  rw [write_v2_ok _ _ _ 20 (Or.inl rfl) rfl (by simp) (by simp)] at hw
-  cases hw
-  rw [load_v2 _ _ _ 20 (by simp)] at hl
-  cases hl
-  have h1 := index_phantom_counterexample.1
-  simp only [List.find?_nil] at hlook
-  have h2 := hlook.symm.trans h1
-  cases h2
+    (v2Idx H [] cs 20).lookupWith 0 0 cs = .ok 0x029d0882 ∧
+      ([] : List IdxEntry).find? (fun e => decide (e.name = cs)) = none ∧
+      (v2Idx H [] cs 20).lookup cs = .error .key := by
+  refine ⟨by decide +kernel, rfl, by decide +kernel⟩
 
 end Dulwich.Props.C02
